@@ -48,9 +48,13 @@ def run_driver(drv, args, inp, timeout=300):
     for attempt in range(6):
         try:
             return vlib.run([drv] + args, inp=inp, timeout=timeout)
-        except OSError as ex:   # ETXTBSY / ENOENT during a concurrent `lake build driver`
+        except OSError as ex:   # ETXTBSY / ENOENT: the (private copy of the) driver was replaced or pruned meanwhile
             last = ex
-            time.sleep(2 + attempt)
+            time.sleep(1 + attempt)
+            try:
+                drv = vlib.lean_driver()
+            except Exception:  # noqa: BLE001
+                pass
     raise last
 
 
